@@ -53,6 +53,17 @@ class SOpaque(SV):
         self.label = label
 
 
+class SUnionIB(SOpaque):
+    """a value that is EITHER an int (`iv`) OR a byte string (`bv`), decided by the symbolic selector `is_int`: an element of a
+    decoded DER SEQUENCE.  Truth value and == are exact without forking; an operation that needs the Python type forks
+    (Engine.resolve_union).  It is never None, a str or an object."""
+    __slots__ = ('is_int', 'iv', 'bv')
+
+    def __init__(self, t, is_int, iv, bv):
+        SOpaque.__init__(self, t, 'union:int|bytes')
+        self.is_int, self.iv, self.bv = is_int, iv, bv
+
+
 class SStr:
     """a string that is not equal to any string constant of interest (e.g. formatted text)"""
     __slots__ = ('label',)
